@@ -284,6 +284,7 @@ type verifSession struct {
 	mu      sync.Mutex
 	pending []verifkit.M
 	emitFrames bool
+	injecting  int32
 	/* held sessions: media hooks do not end until the driver opens their gate ("hookexit") */
 	held    bool
 	gate    string
@@ -392,6 +393,19 @@ func (v *verifSession) callback(frame string) {
 	if v.s != nil && v.s.m.TryLock() {
 		atomic.AddInt64(&v.unheld, 1)
 		v.s.m.Unlock()
+		/* The mutex is free while this frame is on its way to the terminal, so the resize poller may run right
+		   now: the driver plays that schedule.  The terminal changes size, the frame for the new size is
+		   written (inside the nested call), and then the frame in hand - drawn for the old size - is
+		   written over it.  When frames are only ever written under the mutex this never happens. */
+		if v.emitFrames && atomic.CompareAndSwapInt32(&v.injecting, 0, 1) {
+			done := make(chan struct{})
+			go func() {
+				defer close(done)
+				v.resize(int(atomic.LoadInt32(&v.termW))+1, int(atomic.LoadInt32(&v.termH))+2)
+			}()
+			<-done
+			atomic.StoreInt32(&v.injecting, 0)
+		}
 	}
 	n := atomic.AddInt64(&v.frames, 1)
 	if v.emitFrames && v.s != nil {
